@@ -30,6 +30,8 @@ if [ $# -eq 0 ]; then
   [ "$rcord" -ne 0 ] && exit "$rcord"
   /venv/bin/python "$here/tools/py2v_wrap/main.py" --repo "${BIOM_REPO:-/repo}" --out "$here"; rcwrap=$?   # wrapper-object mode (tools/regen_wrap.sh)
   [ "$rcwrap" -ne 0 ] && exit "$rcwrap"
+  /venv/bin/python "$here/tools/py2v_h5r/main.py" --repo "${BIOM_REPO:-/repo}" --out "$here"; rch5r=$?   # reader mode (tools/regen_h5r.sh)
+  [ "$rch5r" -ne 0 ] && exit "$rch5r"
   [ "$rc1" -ne 0 ] && exit "$rc1"
   [ "$rc2" -ne 0 ] && exit "$rc2"
   exit "$rc3"
